@@ -30,7 +30,7 @@ def build(repo):
     f = src.fn(STACK, "clone", "impl VariableMapping")
     b = translate(list(f["body"]), [
         Rule("R1", "Self ( $$e )", "VariableMapping ( $$e )", why="Self"),
-        Rule("R13", "instance . 0 . iter ( ) . map ( $$c ) . collect ( )", lambda bb: "instance . 0 . snapshot_values ( )" if "PrimitiveFlagsPair :: new" in text(bb["c"]) else None, why="a map rebuilt with PrimitiveFlagsPair::new per entry: new cells"),
+        Rule("R13", "instance . 0 . iter ( ) . map ( $$c ) . collect ( )", lambda bb: "instance . 0 . snapshot_values ( )" if "PrimitiveFlagsPair" in bb["c"] else None, why="a map rebuilt with PrimitiveFlagsPair::new per entry: new cells"),
     ], log, "VariableMapping::clone", generic=False)
     check_closed(b, "VariableMapping::clone")
     # make_object: the object's variables are that clone of the frame's variables
